@@ -1,7 +1,10 @@
+import PgBifrost.Model.S3Put
+import PgBifrost.Model.Util
 /-! Line protocol `plumbing <workers> <routing> <pmethod> <buckets> <updMs> <maxMs> <depth> <tickMs> <mem> <wl> <rx>
 <noold> <listhex>`: what the documented options promise each stage is built with. Ages and the tick rate are given in
 milliseconds (README: "batch-flush-update-age … in milliseconds"), everything else reaches its stage as given. -/
 namespace PgBifrost.Driver.Plumbing
+open PgBifrost.Util
 
 def msToNs (ms : Nat) : Nat := ms * 1000000
 
@@ -14,6 +17,15 @@ def handle (args : List String) : String :=
          !(["none", "tablename", "transaction", "transaction-bucket"].contains pmethod) then "bad-op" else
       s!"tick={msToNs t} upd={msToNs u} max={msToNs m} workers={w} chans={w} depth={d} mem={mm} routing={routing} pmethod={pmethod} buckets={b} wl={wl} rx={rx} list={list} noold={noold}"
     | _, _, _, _, _, _, _ => "bad-op"
+  | ["s3put", ks, _reuse, n] =>
+    -- one PUT per batch into the configured bucket, the key prefix is the key space without its leading and trailing
+    -- slashes (the model's `trim`, `Props.C12.s3_key_format`), every body complete, file names carry the first LSN
+    match unhex ks, n.toNat? with
+    | some k, some n =>
+      let bucket := hex ("verif-bucket".toUTF8.toList)
+      let lsns := ",".intercalate ((List.range n).map fun i => toString (1000 * (i + 1)))
+      s!"bucket={bucket} prefix={hex (S3Put.trim k)} puts={n} bodies=ok lsns={lsns}"
+    | _, _ => "bad-op"
   | ["workers", kind, n] =>
     -- one retry policy per worker (the model's retry budget is per worker: Props.C17 `retry_budget_gives_up`)
     if kind == "kinesis" || kind == "s3" then (match n.toNat? with | some k => s!"policies={k}" | none => "bad-op") else "bad-op"
